@@ -62,8 +62,7 @@ def main():
         "notes": "exit 0 held / exit 1 VIOLATION / exit 2 INCONCLUSIVE. known_findings.json lists recorded defects "
                  "(open) and repaired ones (fixed). VERIF_SEED / --seed reseeds every generator; VERIF_TIER or --tier.",
     }
-    if not na:
-        del man["not_applicable"]
+    # (kept even when empty: all 20 properties are claimed)
     out = os.path.join(VERIF, "MANIFEST.json")
     with open(out, "w") as f:
         json.dump(man, f, indent=1)
